@@ -1,2 +1,441 @@
-def gsd_progress(rec):
-    pass
+"""C14 Initial-state processing yields a valid molecular state with the right totals."""
+import os
+import subprocess
+import sys
+import time
+from fractions import Fraction
+
+import z3
+
+from ..common import HarnessError, SRC, VERIF
+from .. import catalogue
+from ..glue import record_setup
+from ..oracle import SymTab
+from ..enginelegs import make_script, symbolize, state_term, volumes_of, _collect_safety
+from ..stochlegs import _prove
+from ..cxx.engine import ast_info, program, initialize, fetch_output, explore, is_sym, Vec, Interp, model_value
+from ..cxx.interp import BreakEx, EndPath, CannotMerge
+
+
+# ----------------------------------------------------------------------------- GSD, bounded unwinding
+def gsd_bounded(rec, item):
+    nc, ns, K, big = item
+    desc = "GenerateStochasticDistribution cells=%d species=%d unwind=%d%s" % (nc, ns, K, " (amounts >= 100: normal branch)" if big else "")
+    rec.structure(desc)
+    X = [z3.Real("x_%d_%d" % (i, s)) for i in range(nc) for s in range(ns)]     # cell-major, as the function expects
+
+    def body(I):
+        for x in X:
+            I.assume(z3.And(x >= 100, x <= 1000) if big else z3.And(x >= 0, x <= 50))
+        I.check_lib_pre = False
+        I.lazy_merge = False
+        r = I.call_fn("GenerateStochasticDistribution", [Vec(list(X), "double", name="mesh_x"), nc, ns, 42])
+        return r
+
+    done = cut = 0
+    for pr in explore(program(), body, max_paths=1500, budget_s=200, unwind=K):
+        if pr.I is None:
+            rec.oblig("GSD exploration", "inconclusive", pr.ended, structure=desc)
+            continue
+        I = pr.I
+        _collect_safety(rec, I, desc)
+        if pr.ended:
+            cut += 1
+            continue
+        done += 1
+        rec.paths += 1
+        out = pr.value.elems
+        for s in range(ns):
+            tot = sum((I.toreal(out[i * ns + s]) for i in range(nc)), z3.RealVal(0))
+            real = sum((X[i * ns + s] for i in range(nc)), z3.RealVal(0))
+            _prove(rec, I, "species %d total == floor(real total)" % s, tot == z3.ToReal(z3.ToInt(real)), desc,
+                   lambda m: rec.violation("gsd-total", "redistribution: species total differs from the floor of the real-valued total (%s)" % desc, {"structure": desc, "model": str(m)[:400]}))
+        for i in range(nc):
+            for s in range(ns):
+                e = I.toreal(out[i * ns + s])
+                _prove(rec, I, "entry (cell %d, species %d) is a non-negative integer; zero real amount stays zero" % (i, s),
+                       z3.And(e >= 0, e == z3.ToReal(z3.ToInt(e)), z3.Implies(X[i * ns + s] == 0, e == 0)), desc,
+                       lambda m: rec.violation("gsd-entry", "redistribution produced a negative / fractional entry or put molecules in an empty cell (%s)" % desc,
+                                               {"structure": desc, "model": str(m)[:400]}))
+    rec.extra["gsd_paths_cut_at_unwinding_bound"] = rec.extra.get("gsd_paths_cut_at_unwinding_bound", 0) + cut
+    rec.vacuity_witness(desc, done > 0, "%d completed paths, %d cut at the unwinding bound" % (done, cut))
+
+
+# ----------------------------------------------------------------------------- GSD, loop-body induction + progress
+def _gsd_body_paths(nc):
+    """One iteration of the correction loop from an ARBITRARY loop-head state satisfying the invariant."""
+    X = [z3.Real("x_%d" % i) for i in range(nc)]
+    Q = [z3.Int("q_%d" % i) for i in range(nc)]
+    dc, D = z3.Int("delta_count"), z3.Int("delta")
+    results = []
+
+    def hook(I, node, cond, body):
+        if cond or not I.fn_stack or I.fn_stack[-1] != "GenerateStochasticDistribution":
+            return False
+        if I.ctx.local:
+            raise CannotMerge()     # never run the harness inside a merge attempt
+        fr = I.frame
+        names = {I.P.by_id[k].get("name"): b for k, b in fr.items() if k in I.P.by_id}
+        rm = names["rm_species"].get()
+        if is_sym(rm):
+            rm = I.truth(rm)
+        entry = {"sto": list(names["mesh_x_sto"].get().elems), "dc": names["delta_count"].get(), "delta": names["delta"].get(),
+                 "tot": names["tot_species"].get().elems[0], "pc": list(I.pc), "defs": list(I.defs)}
+        # arbitrary loop-head state
+        names["mesh_x_sto"].set(Vec([z3.ToReal(q) for q in Q], "double", name="mesh_x_sto"))
+        names["delta_count"].set(dc)
+        names["delta"].set(D)
+        tot = names["tot_species"].get().elems[0]
+        for i in range(nc):
+            I.assume(z3.And(Q[i] >= 0, z3.Implies(Q[i] > 0, X[i] > 0)))
+        I.assume(z3.And(dc >= 0, dc < D))
+        sq = z3.ToReal(sum(Q))
+        I.assume((sq - I.toreal(tot) == z3.ToReal(D - dc)) if rm else (I.toreal(tot) - sq == z3.ToReal(D - dc)))
+        n_ev = len(I.events)
+        n_pc = len(I.pc)
+        broke = False
+        try:
+            I._guarded(body.get("inner", [])) if body.get("kind") == "CompoundStmt" else I.stmt(body)
+        except BreakEx:
+            broke = True
+        up = [e for e in I.events[n_ev:] if e[0] == "uprod"]
+        results.append({"rm": rm, "broke": broke, "after": list(names["mesh_x_sto"].get().elems), "dc": names["delta_count"].get(),
+                        "target": up[0][3] if up else None, "scale": up[0][2] if up else None, "tot": tot, "I": I, "n_pc": n_pc, "pc": list(I.pc), "defs": list(I.defs), "entry": entry})
+        raise EndPath("loop body executed once")
+
+    def body(I):
+        for x in X:
+            I.assume(z3.And(x >= 0, x <= 50))
+        I.check_lib_pre = False
+        I.lazy_merge = False
+        I.loop_hook = hook
+        I.call_fn("GenerateStochasticDistribution", [Vec(list(X), "double", name="mesh_x"), nc, 1, 42])
+        return None
+
+    for pr in explore(program(), body, max_paths=400, budget_s=120, unwind=6):
+        pass
+    return X, Q, dc, D, results
+
+
+def gsd_induction(rec, nc=2):
+    desc = "GSD correction loop, one iteration from an arbitrary invariant state, cells=%d species=1" % nc
+    rec.structure(desc)
+    X, Q, dc, D, results = _gsd_body_paths(nc)
+    n = 0
+    for r in results:
+        I = r["I"]
+        feas, _ = I.check()
+        if feas != "sat":
+            continue
+        n += 1
+        after = [I.toreal(a) for a in r["after"]]
+        dc2 = I.tosym(r["dc"])
+        tot = I.toreal(r["tot"])
+        sq = sum(after, z3.RealVal(0))
+        inv = z3.And(*[z3.And(after[i] >= 0, z3.Or(after[i] == z3.ToReal(Q[i]), after[i] == z3.ToReal(Q[i]) + 1, after[i] == z3.ToReal(Q[i]) - 1)) for i in range(nc)],
+                     *[z3.Implies(after[i] > 0, X[i] > 0) for i in range(nc)],
+                     (sq - tot == z3.ToReal(D - dc2)) if r["rm"] else (tot - sq == z3.ToReal(D - dc2)),
+                     dc2 >= dc, dc2 <= D)
+        # decided without the path prefix (it only selects the correction direction, which the invariant states itself)
+        sv = z3.Solver()
+        sv.set("timeout", 40000)
+        sub = []
+        for c in r["defs"]:
+            if not _mentions(c, "p!") and not _mentions(c, "nrm!"):
+                sv.add(c)
+        for c in r["pc"][r["n_pc"]:]:
+            sv.add(z3.substitute(c, *sub))
+        for name, claim in (("loop body re-establishes the invariant (entries non-negative integers, empty cells stay empty, total off by delta - delta_count)", inv),
+                            ("the loop is left exactly when delta_count == delta (then the species total equals the floored total)", (dc2 == D) if r["broke"] else (dc2 != D))):
+            t0 = time.time()
+            sv.push()
+            sv.add(z3.Not(z3.substitute(claim, *sub)))
+            res = sv.check()
+            sv.pop()
+            rec.query(str(res), time.time() - t0)
+            if res == z3.unsat:
+                rec.oblig(name, "holds", "", time.time() - t0, desc)
+            elif res == z3.sat:
+                rec.oblig(name, "violated", "model found", time.time() - t0, desc)
+                rec.violation("gsd-invariant", "one iteration of the redistribution correction loop breaks its invariant / exit condition (%s)" % desc, {"structure": desc, "model": str(sv.model())[:400] if False else ""})
+            else:
+                rec.oblig(name, "inconclusive", "solver unknown/timeout", time.time() - t0, desc)
+    # initiation: the state in which the real code first reaches the loop satisfies the invariant
+    seen = set()
+    for r in results:
+        e = r["entry"]
+        key = (r["rm"], len(e["pc"]))
+        if key in seen:
+            continue
+        seen.add(key)
+        I = r["I"]
+        sv = z3.Solver()
+        sv.set("timeout", 30000)
+        sv.add(*e["defs"])
+        sv.add(*e["pc"])
+        sto = [I.toreal(a) for a in e["sto"]]
+        tot = I.toreal(e["tot"])
+        dl, d0 = I.tosym(e["delta"]), I.tosym(e["dc"])
+        init = z3.And(*[a >= 0 for a in sto], *[z3.Implies(sto[i] > 0, X[i] > 0) for i in range(nc)], d0 == 0, dl > 0,
+                      (sum(sto, z3.RealVal(0)) - tot == z3.ToReal(dl)) if r["rm"] else (tot - sum(sto, z3.RealVal(0)) == z3.ToReal(dl)))
+        t0 = time.time()
+        sv.add(z3.Not(init))
+        res = sv.check()
+        rec.query(str(res), time.time() - t0)
+        name = "initiation: the loop is first reached in a state satisfying the invariant (%s)" % ("remove" if r["rm"] else "add")
+        rec.oblig(name, "holds" if res == z3.unsat else ("violated" if res == z3.sat else "inconclusive"), "" if res != z3.unknown else "solver unknown/timeout (mixed integer/real)", time.time() - t0, desc)
+        if res == z3.sat:
+            rec.violation("gsd-initiation", "the redistribution correction loop starts in a state violating its invariant (%s)" % desc, {"structure": desc, "model": str(sv.model())[:400]})
+    rec.paths += n
+    rec.vacuity_witness(desc, n > 0, "%d feasible body paths" % n)
+    return X, Q, dc, D, results
+
+
+def gsd_progress(rec, nc=2):
+    """Termination with probability 1: from every invariant loop-head state SOME draw makes progress.
+    The negation (exists state, for all draws: no progress) must be unsat; a model is a hang."""
+    desc = "GSD correction loop progress, cells=%d species=1" % nc
+    rec.structure(desc)
+    t0 = time.time()
+    X, Q, dc, D, results = _gsd_body_paths(nc)
+    for rm in (True, False):
+        group = [r for r in results if r["rm"] == rm]
+        if not group:
+            rec.oblig("progress query (%s)" % ("remove" if rm else "add"), "inconclusive", "no body paths", 0, desc)
+            continue
+        tgt = z3.Real("target")
+        prog = []
+        base = None
+        for r in group:
+            I = r["I"]
+            if r["target"] is None:
+                continue
+            sub = [(r["target"], tgt)]
+            pcs = [z3.substitute(c, *sub) for c in r["pc"][r["n_pc"]:]]
+            progressed = z3.substitute(z3.simplify(I.tosym(r["dc"]) == dc + 1), *sub)
+            if not z3.is_false(progressed):
+                prog.append(z3.And(progressed, *pcs))
+            scale = I.toreal(r["scale"])
+            base = (I, scale)
+        I0, scale = base
+        s = z3.Solver()
+        s.set("timeout", 60000)
+        # state constraints: everything the harness assumed except the range of the draw
+        for c in group[-1]["defs"]:
+            if not _mentions(c, "uprod"):
+                s.add(c)
+        for c in group[-1]["pc"][:group[-1]["n_pc"]]:     # the path prefix that led to this loop (which correction direction)
+            s.add(c)
+        rng = z3.And(z3.Implies(scale > 0, z3.And(tgt >= 0, tgt < scale)), z3.Implies(scale <= 0, tgt == 0))
+        s.add(z3.ForAll([tgt], z3.Implies(rng, z3.Not(z3.Or(*prog) if prog else z3.BoolVal(False)))))
+        r_ = s.check()
+        secs = time.time() - t0
+        rec.query(str(r_), secs)
+        name = "from every invariant state some draw makes progress (%s a molecule)" % ("remove" if rm else "add")
+        if r_ == z3.unsat:
+            rec.oblig(name, "holds", "", secs, desc)
+        elif r_ == z3.sat:
+            m = s.model()
+            xs = [float(model_value(m, x)) for x in X]
+            qs = [int(model_value(m, q)) for q in Q]
+            rec.oblig(name, "violated", "stuck state x=%s sampled=%s" % (xs, qs), secs, desc)
+            hung = replay_hang(xs)
+            rec.violation("gsd-hang", "the redistribution correction loop cannot make progress from real amounts %s with sampled counts %s: set-up never returns (%s)" % (xs, qs, hung[1]),
+                          {"x": xs, "sampled": qs, "replay": hung[1]}, replayed=hung[0])
+        else:
+            rec.oblig(name, "inconclusive", "solver unknown", secs, desc)
+
+
+def _mentions(c, prefix):
+    stack, seen = [c], set()
+    while stack:
+        t = stack.pop()
+        if t.get_id() in seen:
+            continue
+        seen.add(t.get_id())
+        if z3.is_const(t) and t.decl().kind() == z3.Z3_OP_UNINTERPRETED and t.decl().name().startswith(prefix):
+            return True
+        stack.extend(t.children())
+    return False
+
+
+HANG_SNIPPET = r'''
+import sys
+sys.path.insert(0, %r); sys.path.insert(0, %r)
+from strengths import *
+from vt.glue import real_engine
+x = %r
+net = RDNetwork(species=[Species("A")], reactions=[])
+s = RDSystem(net, RDGridSpace(w=len(x), h=1, d=1, cell_vol=1), state=x)
+e = real_engine("gillespie")
+e.setup(RDScript(s, [0, 1], rng_seed=int(sys.argv[1]), init_state_processing="redist"))
+e.finalize()
+print("returned")
+'''
+
+
+def replay_hang(xs, seeds=range(1, 25), limit=6):
+    """Runs set-up of the REAL build in child processes; a child that does not return within `limit` s is a hang."""
+    from ..common import scratch
+    cands = [xs, [0.3, 0.3], [1.0, 0.25]]
+    for x in cands:
+        x = [float(v) for v in x]
+        code = HANG_SNIPPET % (SRC, VERIF, x)
+        path = os.path.join(scratch(), "hang_%d.py" % abs(hash(tuple(x))))
+        open(path, "w").write(code)
+        env = dict(os.environ, VERIF_SHARED_SCRATCH=scratch())
+        for seed in seeds:
+            try:
+                subprocess.run([sys.executable, path, str(seed)], capture_output=True, timeout=limit, env=env)
+            except subprocess.TimeoutExpired:
+                return True, "real build: set-up with state %s, seed %d did not return within %d s" % (x, seed, limit)
+    return False, "no hang reproduced"
+
+
+# ----------------------------------------------------------------------------- through the ABI: layout, Poisson, none
+def abi_mode(rec, item):
+    netname, sd, option, isp = item
+    desc = "init-state processing %s/%s %s" % (option, isp, catalogue.describe(netname, sd))
+    system = catalogue.build(netname, sd)
+    rec.structure(desc)
+    st = SymTab(concrete=volumes_of(system))
+    X = state_term(system, st)
+    script = make_script(system, option, 0.00390625, policy="on_iteration", isp=isp)
+    kind, named, _ = record_setup(script, option)
+    named_s = symbolize(kind, named, st, ("state",))
+    ns, nc = len(system.network.species), system.space.size()
+    stochastic = option in ("gillespie", "tauleap")
+    eff = isp if isp != "auto" else ("redist" if stochastic else "none")
+
+    def body(I):
+        for c in st.positivity():
+            I.assume(c)
+        for s in range(ns):
+            for i in range(nc):
+                I.assume(X(s, i) <= 40)
+        I.check_lib_pre = False
+        if eff == "redist":
+            # GenerateStochasticDistribution is replaced by its contract (proved separately by loop-body induction +
+            # progress): the call's argument and the use of its result are what this leg decides
+            def gsd_stub(I_, this, args):
+                a0 = args[0].get() if hasattr(args[0], "get") else args[0]
+                gsd_calls.append([a0.elems[:], args[1], args[2], args[3]])
+                out = [I_.fresh("gsd_out") for _ in a0.elems]
+                gsd_calls[-1].append(out)
+                return Vec(list(out), "double", name="mesh_x_sto")
+            I.stubs["GenerateStochasticDistribution"] = gsd_stub
+        initialize(I, kind, named_s)
+        return fetch_output(I, ns, nc), len(I.events)
+
+    done = cut = 0
+    gsd_calls = []
+    for pr in explore(program(), body, max_paths=600, budget_s=150, unwind=2):
+        if pr.I is None:
+            rec.oblig("init exploration", "inconclusive", pr.ended, structure=desc)
+            continue
+        I = pr.I
+        _collect_safety(rec, I, desc)
+        if pr.ended:
+            cut += 1
+            continue
+        done += 1
+        rec.paths += 1
+        (n, data, ts), _ = pr.value
+        if n < 1:
+            rec.oblig("a t=0 record exists (per-iteration sampling)", "violated", n, 0, desc)
+            continue
+        seeds = [e for e in I.events if e[0] == "rng_construct"]
+        okseed = all((not is_sym(e[1])) and int(e[1]) == int(named["seed"]) for e in seeds)
+        rec.oblig("every generator is constructed from the script's seed (reproducible)", "holds" if okseed else "violated", [str(e[1]) for e in seeds], 0, desc)
+        if not okseed:
+            rec.violation("init-seed", "a random generator of the set-up is not seeded with the script's seed (%s)" % desc, {"structure": desc})
+        if eff == "none":
+            for s in range(ns):
+                for i in range(nc):
+                    _prove(rec, I, "mode none: record 0 entry (%d,%d) is the input entry" % (s, i), I.toreal(data[s * nc + i]) == X(s, i), desc,
+                           lambda m: rec.violation("init-none", "the 'none' mode does not pass the state through unchanged (%s)" % desc, {"structure": desc, "model": str(m)[:300]}))
+            draws = [e for e in I.events if e[0] in ("poisson", "normal", "uniform")]
+            rec.oblig("mode none makes no random draw", "holds" if not draws else "violated", len(draws), 0, desc)
+        elif eff == "Poisson":
+            pois = [(k, e) for k, e in enumerate(I.events) if e[0] == "poisson"]
+            for s in range(ns):
+                for i in range(nc):
+                    ent = I.toreal(data[s * nc + i])
+                    # the entry must be a Poisson draw whose recorded mean is X(s,i) (0 when the mean is 0)
+                    cands = [z3.And(I.toreal(e[1]) == X(s, i), ent == z3.If(X(s, i) > 0, z3.ToReal(e[2]), 0)) for k, e in pois]
+                    claim = z3.Or(*cands) if cands else (ent == 0)
+                    claim = z3.And(claim, ent >= 0, z3.Implies(X(s, i) == 0, ent == 0))
+                    _prove(rec, I, "mode Poisson: record 0 entry (%d,%d) is a Poisson draw with mean = the input entry (zero stays zero)" % (s, i), claim, desc,
+                           lambda m, s=s, i=i: rec.violation("init-poisson-layout", "Poisson mode: the t=0 entry of (species %d, cell %d) is not drawn with that entry's real amount as mean (%s)" % (s, i, desc),
+                                                             {"structure": desc, "model": str(m)[:300]}, replayed=replay_poisson_layout()))
+        else:  # redist
+            if len(gsd_calls) < 1:
+                rec.oblig("redistribution mode calls GenerateStochasticDistribution", "violated", "", 0, desc)
+                rec.violation("init-redist-nocall", "redistribution mode does not redistribute (%s)" % desc, {"structure": desc})
+                continue
+            arg, a_nm, a_ns, a_seed, out = gsd_calls[-1]
+            okargs = (a_nm == nc and a_ns == ns and not is_sym(a_seed) and int(a_seed) == int(named["seed"]))
+            rec.oblig("GenerateStochasticDistribution gets (n_cells, n_species, the script's seed)", "holds" if okargs else "violated", [str(a_nm), str(a_ns), str(a_seed)], 0, desc)
+            if not okargs:
+                rec.violation("init-redist-args", "redistribution is called with the wrong sizes or seed (%s)" % desc, {"structure": desc})
+            for s in range(ns):
+                for i in range(nc):
+                    _prove(rec, I, "redistribution input entry (cell %d, species %d) is the script's state entry (species-major -> cell-major)" % (i, s),
+                           I.toreal(arg[i * ns + s]) == X(s, i), desc,
+                           lambda m: rec.violation("init-redist-layout", "redistribution receives the state in the wrong layout (%s)" % desc, {"structure": desc, "model": str(m)[:300]}))
+                    _prove(rec, I, "record 0 entry (species %d, cell %d) is the redistributed entry (cell-major -> species-major)" % (s, i),
+                           I.toreal(data[s * nc + i]) == out[i * ns + s], desc,
+                           lambda m: rec.violation("init-redist-layout", "the redistributed state is recorded in the wrong layout (%s)" % desc, {"structure": desc, "model": str(m)[:300]}))
+        gsd_calls.clear()
+    rec.vacuity_witness(desc, done > 0, "%d completed paths, %d cut" % (done, cut))
+
+
+def replay_poisson_layout():
+    """Real build: Poisson mode on a 2-species / 2-cell state with very different magnitudes: the t=0 record
+    must be close to the input entry by entry (a transposition error swaps 7 and 3000)."""
+    try:
+        from ..enginelegs import real_run
+        system = catalogue.build("none", ("grid", 2, 1, 1, 0))
+        system.state = [3000.0, 7.0, 0.0, 50000.0]
+        bad = 0
+        for seed in range(1, 6):
+            script = make_script(system, "tauleap", 0.01, policy="on_iteration", isp="Poisson", seed=seed)
+            data, _ = real_run(script, "tauleap", 0)
+            x0 = data[:4]
+            if abs(x0[0] - 3000) > 400 or abs(x0[1] - 7) > 40 or x0[2] != 0 or abs(x0[3] - 50000) > 2000:
+                bad += 1
+        return bad > 0
+    except Exception:
+        return False
+
+
+def _work(rec, item):
+    if item[0] == "gsd":
+        gsd_bounded(rec, item[1:])
+    elif item[0] == "induction":
+        gsd_induction(rec, item[1])
+    elif item[0] == "progress":
+        gsd_progress(rec, item[1])
+    else:
+        abi_mode(rec, item[1:])
+
+
+def run(rec):
+    program()
+    rec.extra["ast"] = ast_info()
+    rec.assume("doubles are exact reals; Poisson draws are arbitrary integers >= 0 (0 for mean 0), normal draws arbitrary reals, uniform draws arbitrary in [0,1); the generator is an opaque token carrying its seed")
+    rec.assume("redistribution: (1) bounded unwinding of the correction loop (K iterations; longer corrections are cut and counted), (2) loop-body induction from an arbitrary invariant state, (3) progress query 'exists state, for all draws: no progress' must be unsat - termination with probability 1 then follows from independent draws")
+    rec.assume("real amounts bounded by 50 (Poisson branch) or in [100,1000] (normal branch) in the GSD runs, by 40 through the ABI")
+    rec.assume("through the ABI the redistribution function is replaced by its contract (fresh outputs); what is decided there is the layout of its argument / result and its seed; the contract itself (non-negative integers, floored totals, empty cells stay empty, termination) is the loop-body induction + progress query")
+    for fn in ("GenerateStochasticDistribution", "engineexport_initialize_grid/graph (init-state section)", "SpeciesFirstToMeshFirstArray", "MkVec", "RDScript.init_state_processing via LibRDEngine.setup"):
+        rec.encoded(fn)
+    q = rec.tier == "quick"
+    items = [("induction", 2), ("progress", 2), ("induction", 3), ("progress", 3)]
+    if not q:
+        # bounded unwinding of the whole function (mixed integer/real queries: many stay inconclusive and are listed as such)
+        items += [("induction", 4), ("progress", 4), ("gsd", 2, 1, 2, False), ("gsd", 3, 1, 2, False), ("gsd", 2, 1, 2, True)]
+    for option in ("euler", "tauleap", "gillespie"):
+        for sd in (("grid", 2, 1, 1, 0), ("graph", "pair")) + ((("grid", 2, 2, 1, 4), ("graph", "triangle")) if not q else ()):
+            for isp in ("none", "auto", "Poisson", "redist"):
+                items.append(("abi", "none", sd, option, isp))
+    rec.parallel(_work, items)
